@@ -89,11 +89,11 @@ fn plan(ctx: &mut CheckCtx, k: f64) {
             ctx.run::<s4_digest::S4>(n(12_000));
         }
         "C09" => {
-            ctx.required_probes = vec!["prune_tick_adjacent", "prune_tick", "count_equals_window_at_tick"];
+            ctx.required_probes = vec!["prune_tick_adjacent", "prune_tick", "count_equals_window_at_tick", "more_than_65536_windows"];
             ctx.run::<s5_topk::S5a>(n(20_000));
         }
         "C10" => {
-            ctx.required_probes = vec!["inflated_newcomer_while_heap_has_room", "collision_free_prefix", "prefix_with_sketch_error"];
+            ctx.required_probes = vec!["inflated_newcomer_while_heap_has_room", "collision_free_prefix", "prefix_with_sketch_error", "count_passes_65536"];
             ctx.run::<s5_topk::S5b>(n(60_000));
             ctx.run::<s9_entrypoints::S9>(n(10_000));
         }
